@@ -24,14 +24,14 @@ def P2(k): return C(1 << k)
 REPO = os.environ.get('VERIF_REPO', '/repo')
 
 
-def dump_mir(tag='whirlpool', crate_dir=None, pkg=None, features='verif'):
+def dump_mir(tag='whirlpool', crate_dir=None, pkg=None, features='verif', name=None):
     """(re)generate the MIR dump from the current working tree; returns the path"""
     crate_dir = crate_dir or os.path.join(REPO, 'programs/whirlpool')
     tdir = os.path.join(WORK, 'mir' if REPO == '/repo' else 'mir_' + hashlib.sha1(REPO.encode()).hexdigest()[:8])
     os.makedirs(tdir, exist_ok=True)
     out = os.path.join(tdir, f'{tag}.{os.getpid()}.mir')
     # force re-emission: cargo prints MIR only when the crate is actually recompiled
-    name = pkg.split('@')[0].replace('-', '_') if pkg else 'whirlpool'
+    name = name or (pkg.split('@')[0].replace('-', '_') if pkg else 'whirlpool')
     for fp in glob.glob(os.path.join(tdir, 'debug', '.fingerprint', f'{name}-*')):
         shutil.rmtree(fp, ignore_errors=True)
     cmd = ['cargo', '+nightly', 'rustc', '--offline', '--lib', '--target-dir', tdir]
@@ -197,6 +197,8 @@ class Mir:
             self.consts[m.group(1).strip()] = (int(m.group(3)), m.group(2))
         for m in re.finditer(r'^(?:const|static) ([^\n{]*?): ([^\n=]*?) = \{\n(.*?)\n\}\n', txt, re.S | re.M):
             v = re.search(r'_0 = const (-?\d+)_(\w+);', m.group(3))
+            if v is None and re.search(r'_0 = &_1;', m.group(3)):      # promoted reference to an integer constant
+                v = re.search(r'_1 = const (-?\d+)_(\w+);', m.group(3))
             if v: self.consts[m.group(1).strip()] = (int(v.group(1)), v.group(2))
             else:
                 v = re.search(r'_0 = const ([\w:]+) as (\w+) \(IntToInt\);', m.group(3))
